@@ -4,6 +4,7 @@ mod verif_t {
     //! ticks are out of reach for the symbolic executor, see probes/attempted.)
     use super::*;
     use crate::sync_layer::verif_s as vs;
+    use crate::{InputStatus, NULL_FRAME};
     use crate::verif_common::{stub_format, CfgRL};
 
     /// checksums_consistent(f) for every frame f of the check window: the first checksum seen for a
@@ -58,4 +59,143 @@ mod verif_t {
     fn t_checksum_comparison_cd2() {
         checksum_comparison(2, 3, 6);
     }
+
+    // ------------------------------------------------------------------ one whole advance_frame call (C13, C02)
+
+    /// One whole `advance_frame` call of a one-player session from the state a run of a deterministic OR glitching game
+    /// has reached at frame c (queue holds the inputs of frames < c, the ring holds the saves of the last w+1 frames
+    /// with symbolic checksums, the history holds the first checksum of the frames c-1-cd..=c-2; at most one frame
+    /// `bad` of the check window was re-simulated to a different checksum). Decides: a mismatch is reported iff there
+    /// is one, as MismatchedChecksum naming current frame and exactly the bad frame, with no request; otherwise the
+    /// request list is Load(c-cd) [cell holds c-cd], then for each frame c-cd..c-1 (Save unless just loaded,
+    /// Advance with that frame's stored input as Confirmed), then Save(c), Advance(new input, Confirmed); the frame
+    /// counter ends at c+1; the first checksum of every saved frame of the window - also on the very first rollback -
+    /// is now in the history and older entries are gone. Without rollback (c <= cd): [Save(c), Advance]; cd = 0: [Advance].
+    fn tick(cd: usize, w: usize, c: Frame) {
+        const R: usize = crate::input_queue::verif_q::RING;
+        let mut s = SyncTestSession::<CfgRL>::new(1, w, cd, 0);
+        let v: [u8; R] = kani::any();
+        let cdf = cd as Frame;
+        let keep = if c - cdf - 1 > 0 { c - cdf - 1 } else { 0 };
+        if c > 0 {
+            let q = crate::input_queue::verif_q::build::<CfgRL>(c - 1, keep, c - 1, &v, None, NULL_FRAME);
+            core::mem::forget(core::mem::replace(vs::queue_mut(&mut s.sync_layer, 0), q));
+        }
+        vs::set_current_frame(&mut s.sync_layer, c);
+        vs::set_last_confirmed(&mut s.sync_layer, if c > cdf { c - cdf } else { NULL_FRAME });
+        vs::set_last_saved(&mut s.sync_layer, c - 1);
+        s.dummy_connect_status[0].last_frame = c;
+        let ncell = vs::num_cells(&s.sync_layer);
+        let cs: [u32; 8] = kani::any();
+        // saves of the last w+1 frames (frame f in slot f % (w+1)), newest last
+        let mut f = if c - (ncell as Frame) > 0 { c - ncell as Frame } else { 0 };
+        if cd > 0 {
+            while f < c {
+                vs::cell_save(&s.sync_layer, f as usize % ncell, f, cs[f as usize % 8]);
+                f += 1;
+            }
+        }
+        // history left by the previous call (made at frame c-1, if that call compared at all): frames c-1-cd..=c-2
+        let bad: Frame = kani::any();
+        let rollback = cd > 0 && c > cdf;
+        let prev_compared = cd > 0 && c - 1 > cdf;
+        kani::assume(bad == NULL_FRAME || (prev_compared && bad >= c - cdf && bad <= c - 2));
+        let wrong: u32 = kani::any();
+        if prev_compared {
+            let mut h = c - 1 - cdf;
+            while h <= c - 2 {
+                let first = if h == bad { wrong } else { cs[h as usize % 8] };
+                s.checksum_history.insert(h, Some(first as u128));
+                h += 1;
+            }
+        }
+        kani::assume(bad == NULL_FRAME || wrong != cs[bad as usize % 8]);
+        let x: u8 = kani::any();
+        assert!(s.add_local_input(0, x).is_ok());
+        let r = s.advance_frame();
+        match &r {
+            Err(GgrsError::MismatchedChecksum { current_frame, mismatched_frames }) => {
+                assert!(bad != NULL_FRAME, "C13: a deterministic game is never flagged");
+                assert!(*current_frame == c && mismatched_frames.len() == 1 && mismatched_frames[0] == bad, "C13: names exactly the affected frame");
+                assert!(s.sync_layer.current_frame() == c);
+            }
+            Err(_) => assert!(false, "documented error kind"),
+            Ok(reqs) => {
+                assert!(bad == NULL_FRAME, "C13: a frame re-simulated to a different checksum inside the window is reported");
+                assert!(s.sync_layer.current_frame() == c + 1, "C02: exactly one frame further");
+                let mut k = 0;
+                if rollback {
+                    let from = c - cdf;
+                    match &reqs[0] {
+                        GgrsRequest::LoadGameState { cell, frame } => assert!(*frame == from && cell.frame() == from, "C02: load names a frame whose cell holds it"),
+                        _ => assert!(false, "rollback starts with the load"),
+                    }
+                    k = 1;
+                    let mut fr = from;
+                    while fr < c {
+                        if fr > from {
+                            match &reqs[k] {
+                                GgrsRequest::SaveGameState { frame, .. } => assert!(*frame == fr, "C02: save names the frame the game is at"),
+                                _ => assert!(false, "expected SaveGameState"),
+                            }
+                            k += 1;
+                        }
+                        match &reqs[k] {
+                            GgrsRequest::AdvanceFrame { inputs } => {
+                                assert!(inputs.len() == 1 && inputs[0] == (v[fr as usize % R], InputStatus::Confirmed), "C13: re-simulation with the stored inputs, all Confirmed");
+                            }
+                            _ => assert!(false, "expected AdvanceFrame"),
+                        }
+                        k += 1;
+                        fr += 1;
+                    }
+                }
+                if cd > 0 {
+                    match &reqs[k] {
+                        GgrsRequest::SaveGameState { frame, .. } => assert!(*frame == c, "C02: the current frame is saved before it is simulated"),
+                        _ => assert!(false, "expected SaveGameState for the current frame"),
+                    }
+                    k += 1;
+                }
+                match &reqs[k] {
+                    GgrsRequest::AdvanceFrame { inputs } => assert!(inputs.len() == 1 && inputs[0] == (x, InputStatus::Confirmed)),
+                    _ => assert!(false, "expected AdvanceFrame"),
+                }
+                assert!(reqs.len() == k + 1, "no further request");
+                if rollback {
+                    // first checksums of the window's saved frames are remembered (also on the very first rollback)
+                    let mut h = c - cdf;
+                    while h <= c - 1 {
+                        assert!(s.checksum_history.get(&h) == Some(&Some(cs[h as usize % 8] as u128)), "C13: first checksum of every frame of the window recorded");
+                        h += 1;
+                    }
+                    assert!(!s.checksum_history.contains_key(&(c - cdf - 1)), "history outside the window dropped");
+                }
+            }
+        }
+        kani::cover!(r.is_ok(), "deterministic run: requests returned");
+        kani::cover!(cd < 2 || !prev_compared || r.is_err(), "glitch reported (where one can exist)");
+        core::mem::forget(r);
+        core::mem::forget(s);
+    }
+
+    macro_rules! tick_case {
+        ($name:ident, $cd:expr, $w:expr, $c:expr) => {
+            /// One whole SyncTestSession::advance_frame call (see `tick`): mismatch reported iff a frame of the window was
+            /// re-simulated differently, naming it; else Load/Save/Advance list with stored inputs, first checksums recorded.
+            /// (instance: check distance, window, current frame; inputs, checksums, glitch position symbolic)
+            #[kani::proof]
+            #[kani::unwind(10)]
+            #[kani::stub(alloc::fmt::format, stub_format)]
+            fn $name() {
+                tick($cd, $w, $c);
+            }
+        };
+    }
+    tick_case!(t_tick_cd2_first_rollback, 2, 3, 3);
+    tick_case!(t_tick_cd2_steady, 2, 3, 9);
+    tick_case!(t_tick_cd1_steady, 1, 2, 5);
+    tick_case!(t_tick_cd3_steady, 3, 4, 9);
+    tick_case!(t_tick_cd2_before_rollbacks, 2, 3, 2);
+    tick_case!(t_tick_cd0, 0, 2, 4);
 }
